@@ -115,7 +115,7 @@ Inductive cache_ev :=
 | EvTerminating (tid : positive)            (* pod update: deletionTimestamp set *)
 | EvDelete (tid : positive)                 (* pod deleted *)
 | EvPodAdd (t : task)                       (* a pod arrives (possibly before its node) *)
-| EvUpdateUnbound (tid : positive)          (* pod update / resync whose object still has no nodeName *)
+| EvUpdateUnbound (tid : positive) (deleting : bool) (* pod update / resync whose object still has no nodeName; deleting: it carries a deletionTimestamp *)
 | EvBoundArrives (tid : positive)           (* the update that shows the pod bound where the cache bound it *)
 | EvRemoveNode (nid : positive)             (* node deleted *)
 | EvUnbind (tid nid : positive).            (* bind execution failed (PreBind / Bind): resyncTask takes the task off the node *)
@@ -194,16 +194,18 @@ Definition cache_event (c : cache) (e : cache_ev) : cache :=
              | Some j => <[t_job t := job_add j t]> (c_jobs c)
              | None => c_jobs c end)
             (add_to_node (c_nodes c) t)
-  | EvUpdateUnbound tid =>
+  | EvUpdateUnbound tid deleting =>
     (* updatePod 357-362: "ignore the update event if pod is allocated in cache but not present
-       in NodeName" -- whatever changed in the object, whether or not the resourceVersion did.
-       This is what keeps the reservation of a bind in flight. *)
+       in NodeName" -- whatever changed in the object (a deletionTimestamp included: seeded mutant
+       C02-r9-1 lets those through), whether or not the resourceVersion did.
+       This is what keeps the reservation of a bind in flight.  A pod the cache does not hold as
+       allocated goes through deletePod + addPod: Pending, or Releasing when it is being deleted. *)
     match c_heap c !! tid with
     | None => c
     | Some st =>
       if allocated_status (t_status st) then c
       else
-        let t' := set_node (set_status st Pending) None in
+        let t' := set_node (set_status st (if deleting then Releasing else Pending)) None in
         mkCache (<[tid := t']> (c_heap c))
                 (match c_jobs c !! t_job st with
                  | Some j => <[t_job st := job_add (job_del j st) t']> (c_jobs c)
@@ -266,7 +268,7 @@ Definition agent_event (tasks : positive -> option task) (ns : gmap positive nod
   (* the agent's guard reads the status of the POD (agentscheduler event_handlers.go 93-97), which is
      Pending for an unbound pod: it never fires; deletePod / addPod then look for the pod's own
      nodeName, which is empty: nothing happens to the nodes *)
-  | EvUpdateUnbound _ => ns
+  | EvUpdateUnbound _ _ => ns
   (* the bound pod arrives: deletePod(old) finds no nodeName, addPod(new) is refused because the
      Binding copy is still there ("already on node") *)
   | EvBoundArrives tid =>
